@@ -2,7 +2,7 @@ SPECIFICATION GSpec
 CONSTANTS
   Layouts <- GoodCfg
   Impl <- NoDevs
-  Depth = 4
+  Depth = 5
   GenModes <- AllModes
   GenBy = TRUE
 CONSTRAINT Bound
